@@ -1,7 +1,7 @@
 """dev helper: run one check item in-process and print its summary.
 usage: tools/item.py <check module> <fn> '<json params>' [defer_depth]"""
 import sys, time, json
-sys.path.insert(0, '/verif'); sys.path.insert(0, '/repo')
+import os; sys.path.insert(0, '/verif'); sys.path.insert(0, os.environ.get('URAL_REPO', '/repo'))
 from pysx import harness
 it = {"mod": "checks." + sys.argv[1], "fn": sys.argv[2], "params": json.loads(sys.argv[3]), "yield_s": 1e9, "pid": sys.argv[1]}
 if len(sys.argv) > 4:
